@@ -1,7 +1,7 @@
 (** C11 - recorded data cannot be altered through the values handed out.
     Statements only; the model is Values/Heap.v, the proofs are in Values/HeapFacts.v.
     [qp]/[qp_dec] is the quoted-printable oracle for bytes values (any functions). *)
-From Playback Require Import Base.Str Values.PyVal Values.Codec Values.Heap Values.HeapFacts.
+From Playback Require Import Base.Str Values.PyVal Values.Codec Values.Heap Values.HeapFacts Values.HeapRoundTrip.
 From Coq Require Import Lia.
 Open Scope list_scope.
 
@@ -118,6 +118,7 @@ Theorem C11_copy_on_interception :
     (exists j, encode_top qp fuel h result = HOk j /\ decode_h qp_dec fuel h j = HOk (h1, r')) /\
     length h <= length h1 /\ length h2 = S (length h1) /\
     (forall l, l < length h -> l <> rec -> nth_error h2 l = nth_error h l) /\
+    (forall l, inr (length h) (length h1) l -> nth_error h2 l = nth_error h1 l) /\
     (forall l, reach h2 r' l -> length h <= l < length h1) /\
     (forall h'', agree_on (inr (length h) (length h1)) h2 h'' ->
        forall f s, encode_h qp f h'' s r' = encode_h qp f h2 s r').
@@ -137,6 +138,39 @@ Theorem C11_copy_on_immune_to_service :
     forall f s, encode_h qp f h'' s r' = encode_h qp f h2 s r'.
 Proof. exact copy_on_then_service. Qed.
 Print Assumptions C11_copy_on_immune_to_service.
+
+(** The copy is faithful - PARTIAL: proved for JSON [j] that is a canonical encoder output without
+    py/id ([enc_ok]: no list or object was met twice; dict keys sorted, distinct, unreserved; objects
+    have a non-empty state; bytes texts in the image of the quoted-printable encoder).  Then decoding
+    [j] and encoding the decoded graph gives [j] again, with the same fuel.  What is missing: encodings
+    WITH py/id - there the statement is false for the faithful model and for jsonpickle 0.9.3 on this
+    interpreter ([C11_copy_of_shared_lists_can_differ] below). *)
+Theorem C11_roundtrip_partial :
+  forall qp qp_dec fuel h j h' r,
+    enc_ok qp qp_dec fuel j = true ->
+    decode_h qp_dec fuel h j = HOk (h', r) ->
+    encode_top qp fuel h' r = HOk j.
+Proof. exact roundtrip_idfree. Qed.
+Print Assumptions C11_roundtrip_partial.
+
+Theorem C11_copy_faithful_partial :
+  forall qp qp_dec fuel h rec k stored j h' r,
+    get_data_direct h rec k = Some stored ->
+    encode_top qp fuel h stored = HOk j -> enc_ok qp qp_dec fuel j = true ->
+    get_data qp qp_dec fuel h rec k = HOk (h', r) ->
+    encode_top qp fuel h' r = HOk j.
+Proof. exact get_data_faithful. Qed.
+Print Assumptions C11_copy_faithful_partial.
+
+Theorem C11_copy_on_records_capture_state_partial :
+  forall qp qp_dec fuel h rec k result j h1 r' h2,
+    rec < length h ->
+    encode_top qp fuel h result = HOk j -> enc_ok qp qp_dec fuel j = true ->
+    pickle_copy qp qp_dec fuel h result = HOk (h1, r') ->
+    record_value qp qp_dec true fuel h rec k result = HOk h2 ->
+    recorded_value h2 rec k = Some r' /\ encode_top qp fuel h2 r' = HOk j.
+Proof. exact copy_on_faithful. Qed.
+Print Assumptions C11_copy_on_records_capture_state_partial.
 
 (** Fuel: an answer obtained with some fuel is the answer with any larger fuel. *)
 Theorem C11_encode_fuel_monotone :
@@ -204,6 +238,15 @@ Proof.
     destruct l as [|[|[|[|l]]]]; try lia; cbn in E; injection E as <-; cbn;
       repeat constructor; cbn; lia. }
   eexists. split; [vm_compute; reflexivity|]. split; vm_compute; [discriminate|reflexivity].
+Qed.
+
+Example C11_example_roundtrip :
+  exists j, encode_top qp_simple 40 ex_h (RLoc 1) = HOk j /\ enc_ok qp_simple qp_dec_simple 40 j = true /\
+  exists h' r, get_data qp_simple qp_dec_simple 40 ex_h 0 K = HOk (h', r) /\
+               enc_text h' r = enc_text ex_h (RLoc 1).
+Proof.
+  eexists. split; [vm_compute; reflexivity|]. split; [vm_compute; reflexivity|].
+  do 2 eexists. split; [vm_compute; reflexivity|vm_compute; reflexivity].
 Qed.
 
 (** With the flag off the recorded value IS the object the service holds (documented design,
